@@ -8,6 +8,7 @@ import (
 	"math/big"
 	"reflect"
 	"strconv"
+	"strings"
 
 	"github.com/mattn/anko/ast"
 	"github.com/mattn/anko/env"
@@ -531,6 +532,11 @@ func numEqualsNumeral(numV reflect.Value, s string) bool {
 	}
 	bf, _, err := big.ParseFloat(s, 10, prec, big.ToNearestEven)
 	if err != nil || !bf.IsInt() {
+		return false
+	}
+	if bf.Sign() == 0 && strings.IndexAny(strings.SplitN(strings.ToLower(s), "e", 2)[0], "123456789") >= 0 {
+		// a mantissa with a digit other than 0 under an exponent below big.Float's range:
+		// underflowed to 0, the numeral denotes no integer
 		return false
 	}
 	switch numV.Kind() {
